@@ -177,6 +177,8 @@ def op_ne (a b : Nat) : PF ρ Bool := pure (decide (a ≠ b))
 def op_not (a : Bool) : PF ρ Bool := pure (!a)
 /-- `a + b` on `usize`: overflow panics (debug) -/
 def op_add (a b : Nat) : PF ρ Nat := if a + b < W then pure (a + b) else Prog.panic "overflow"
+/-- `a - b` on `usize`: underflow panics (debug) -/
+def op_sub (a b : Nat) : PF ρ Nat := if b ≤ a then pure (a - b) else Prog.panic "overflow"
 def m_saturating_add (a b : Nat) : PF ρ Nat := pure (satAdd a b)
 def m_cmp (a b : Nat) : PF ρ Ord3 := pure (if a < b then .less else if a = b then .equal else .greater)
 def m_assert_eq (a b : Nat) : PF ρ Unit := if a = b then pure () else Prog.panic "assert_eq"
